@@ -37,11 +37,13 @@ def layouts(A):
 
 
 def ints(t):
-    return [int(x) for x in t.reshape(-1).tolist()]
+    return [int(x) if x == x and abs(x) != float('inf') else x for x in t.reshape(-1).tolist()]
 
 
 def mat_str(t):
-    return ';'.join(','.join(str(int(x)) for x in row) for row in t.tolist())
+    # (non-finite entries — only a broken implementation produces them from integer payloads — are rendered as such, so that
+    # the comparison with the model fails instead of the harness)
+    return ';'.join(','.join(str(int(x)) if x == x and abs(x) != float('inf') else repr(x) for x in row) for row in t.tolist())
 
 
 def run(ctx):
